@@ -78,9 +78,13 @@ func (m *Model) PullDemand(ctx context.Context, opts ...resource.ReadOption) <-c
 		defer close(send)
 		for change := range recv {
 			demand := change.Value.(*traits.ElectricDemand)
-			send <- PullDemandChange{
+			select {
+			case <-ctx.Done():
+				return // the subscriber is gone, nobody will take the change
+			case send <- PullDemandChange{
 				Value:      demand,
 				ChangeTime: change.ChangeTime,
+			}:
 			}
 		}
 	}()
@@ -121,9 +125,13 @@ func (m *Model) PullActiveMode(ctx context.Context, opts ...resource.ReadOption)
 		defer close(send)
 		for change := range recv {
 			activeMode := change.Value.(*traits.ElectricMode)
-			send <- PullActiveModeChange{
+			select {
+			case <-ctx.Done():
+				return // the subscriber is gone, nobody will take the change
+			case send <- PullActiveModeChange{
 				ActiveMode: activeMode,
 				ChangeTime: change.ChangeTime,
+			}:
 			}
 		}
 	}()
@@ -359,7 +367,11 @@ func (m *Model) PullModes(ctx context.Context, opts ...resource.ReadOption) <-ch
 				NewValue:   newValue,
 				OldValue:   oldValue,
 			}
-			send <- pullChange
+			select {
+			case <-ctx.Done():
+				return // the subscriber is gone, nobody will take the change
+			case send <- pullChange:
+			}
 		}
 	}()
 
